@@ -161,6 +161,7 @@ class Analyzer:
         self.record = False
         self.trace = False
         self.probe_spec = []
+        self.wrap_obligations = False
         self.opaque = []
         self.force_ret = {}
         self.rule_c06a = False
@@ -465,8 +466,25 @@ class Analyzer:
                     return Enum("(tuple)", 0, {(0, 0): st.fresh_int(lty), (0, 1): Bool("unk")})
                 ovf = Bool("cmp", op="Gt", l=r, r=lin(hi)) if op != "SubWithOverflow" else Bool("cmp", op="Lt", l=r, r=lin(lo))
                 return Enum("(tuple)", 0, {(0, 0): Int(r), (0, 1): ovf})
-            if op == "Add": return Int(x + y)
-            if op == "Sub": return Int(x - y)
+            if op in ("Add", "Sub"):
+                r = x + y if op == "Add" else x - y
+                if self.wrap_obligations and isinstance(lty, dict) and lty.get("k") == "int":
+                    lo, hi = int_range(lty)
+                    self.oblige(st, [ge(r, lo), le(r, hi)], f"{self.fn_stack[-1]['key'] if self.fn_stack else '?'}@wrap:{site}", "Overflow", f"{op} may wrap silently (overflow checks are off in this configuration)")
+                return Int(r)
+            if op in ("Div", "Mul", "Shr", "Shl", "Rem") and x.is_const() and y.is_const() and x.c >= 0 and y.c >= 0:
+                try:
+                    v = {"Div": lambda: x.c // y.c, "Mul": lambda: x.c * y.c, "Shr": lambda: x.c >> y.c, "Shl": lambda: x.c << y.c, "Rem": lambda: x.c % y.c}[op]()
+                    lo, hi = int_range(dest_ty if dest_ty.get("k") == "int" else lty)
+                    if lo <= v <= hi: return Int(lin(v))
+                except ZeroDivisionError:
+                    pass
+            if op == "Mul" and (x.is_const() or y.is_const()):
+                r = x.scale(y.c) if y.is_const() else y.scale(x.c)
+                if self.wrap_obligations and isinstance(lty, dict) and lty.get("k") == "int":
+                    lo, hi = int_range(lty)
+                    self.oblige(st, [ge(r, lo), le(r, hi)], f"{self.fn_stack[-1]['key'] if self.fn_stack else '?'}@wrap:{site}", "Overflow", "Mul may wrap silently (overflow checks are off in this configuration)")
+                    return Int(r)
             if op == "BitAnd":
                 s = st.fresh_int(lty, "and")
                 if y.is_const() and y.c >= 0: st.C.add(le(s.e, y.c))
@@ -483,6 +501,7 @@ class Analyzer:
             if op in ("Shl", "Shr", "Div", "Rem", "BitXor", "Mul"):
                 s = st.fresh_int(dest_ty if dest_ty.get("k") == "int" else lty, op.lower())
                 if op == "Shr" and int_range(lty)[0] == 0: st.C.add(le(s.e, x))
+                if op == "Div" and int_range(lty)[0] == 0 and y.is_const() and y.c >= 1: st.C.add(le(s.e.scale(y.c), x))
                 return s
             raise Unmodelled("binop " + op)
         if k == "unop":
@@ -1654,15 +1673,83 @@ def m_max(an, st, args, dty, site, callee, t):
         return ret1(st, r)
     return m_opaque(an, st, args, dty, site, callee, t)
 
+def _array_len(t):
+    """N of the `[T; N]` behind the receiver of an array Index call, read from the MIR type of the argument"""
+    try:
+        ty = t["args"][0]["place"]["ty"]
+        while ty.get("k") in ("ref", "ptr"): ty = ty["to"]
+        if ty.get("k") == "array":
+            import re as _re
+            m = _re.match(r"(\d+)", str(ty.get("n", "")))
+            if m: return int(m.group(1))
+    except Exception:
+        pass
+    return None
+
 def m_array_index(an, st, args, dty, site, callee, t):
-    # [T; N][range] -> opaque slice of unknown length <= N
+    # [T; N][range] -> slice view; N comes from the array type, so constant ranges are checked exactly
     base = "obj@" + site.split(" <= ")[0] + ":arr"; n = fresh("len"); st.C.add(ge(n, 0)); st.C.add(le(n, ISIZE_MAX)); st.mem[base + "#len"] = Int(n)
     idx = args[1]
+    N = _array_len(t)
     if isinstance(idx, Enum) and idx.adt == "std::ops::RangeTo":
-        st.C.add(eq(n, an.as_int(st, idx.fields[(0, 0)])))
-    if isinstance(idx, Enum) and idx.adt == "std::ops::Range":
-        st.C.add(eq(n, an.as_int(st, idx.fields[(0, 1)]) - an.as_int(st, idx.fields[(0, 0)])))
+        e = an.as_int(st, idx.fields[(0, 0)])
+        if N is not None: an.oblige(st, [le(e, N)], site, "range_to", f"{e} <= {N}")
+        st.C.add(eq(n, e))
+    elif isinstance(idx, Enum) and idx.adt == "std::ops::Range":
+        a_, b_ = an.as_int(st, idx.fields[(0, 0)]), an.as_int(st, idx.fields[(0, 1)])
+        an.oblige(st, [le(a_, b_)], site, "range", f"{a_} <= {b_}")
+        if N is not None: an.oblige(st, [le(b_, N)], site, "range", f"{b_} <= {N}")
+        st.C.add(eq(n, b_ - a_))
+    elif isinstance(idx, Enum) and idx.adt == "std::ops::RangeFrom" and N is not None:
+        a_ = an.as_int(st, idx.fields[(0, 0)])
+        an.oblige(st, [le(a_, N)], site, "range_from", f"{a_} <= {N}")
+        st.C.add(eq(n, lin(N) - a_))
+    elif isinstance(idx, Enum) and idx.adt == "std::ops::RangeFull" and N is not None:
+        st.C.add(eq(n, N))
+    elif N is not None:
+        st.C.add(le(n, N))
     return ret1(st, Slice(base, 0, n))
+
+def m_chunks(exact):
+    def h(an, st, args, dty, site, callee, t):
+        s = an.as_slice(st, args[0]); n = an.as_int(st, args[1])
+        an.oblige(st, [ge(n, 1)], site, "chunks", f"chunk size {n} != 0")
+        return ret1(st, Enum("(chunks_exact)" if exact else "(chunks)", 0, {(0, 0): s, (0, 1): Int(n)}))
+    return h
+
+def m_chunks_next(an, st, args, dty, site, callee, t):
+    r = args[0]
+    v = st.mem.get(r.loc) if isinstance(r, Ref) else None
+    if not isinstance(v, Enum) or v.adt not in ("(chunks)", "(chunks_exact)"): raise Unmodelled("chunks next on " + str(v))
+    s = v.fields[(0, 0)]; n = an.as_int(st, v.fields[(0, 1)])
+    out = []
+    s1 = st.copy(); ln = fresh("len"); s1.C.add(le(ln, n)); s1.C.add(le(ln, s.ln))
+    s1.C.add(ge(ln, 1) if v.adt == "(chunks)" else eq(ln, n))
+    base = fresh("obj"); s1.mem[base + "#len"] = Int(ln)
+    if not s1.C.infeasible(): out.append((s1, Enum("std::option::Option", 1, {(1, 0): Slice(base, 0, ln)})))
+    out.append((st.copy(), Enum("std::option::Option", 0, {})))
+    return out
+
+def m_refmut_iter_next(an, st, args, dty, site, callee, t):
+    """<&mut I as Iterator>::next: forward to the iterator behind the reference"""
+    r = args[0]
+    inner = st.mem.get(r.loc) if isinstance(r, Ref) else None
+    if isinstance(inner, Ref):
+        v = st.mem.get(inner.loc)
+        if isinstance(v, Enum) and v.adt in ("(chunks)", "(chunks_exact)"):
+            return m_chunks_next(an, st, [inner], dty, site, callee, t)
+        if isinstance(v, Enum) and v.adt in ("(sliceiter)", "(enumerate)"):
+            return m_iter_next(an, st, [inner], dty, site, callee, t)
+    raise Unmodelled("next through &mut on " + str(inner))
+
+def m_chunks_remainder(an, st, args, dty, site, callee, t):
+    r = args[0]
+    v = st.mem.get(r.loc) if isinstance(r, Ref) else None
+    if not isinstance(v, Enum) or v.adt != "(chunks_exact)": raise Unmodelled("remainder on " + str(v))
+    n = an.as_int(st, v.fields[(0, 1)])
+    ln = fresh("len"); st.C.add(ge(ln, 0)); st.C.add(le(ln, n - 1))
+    base = fresh("obj"); st.mem[base + "#len"] = Int(ln)
+    return ret1(st, Slice(base, 0, ln))
 
 def m_as_ref(an, st, args, dty, site, callee, t):
     r = args[0]
@@ -1846,6 +1933,8 @@ MODELS = {
     "<byteorder::BigEndian as byteorder::ByteOrder>::write_u32": m_write(4),
     "core::slice::<impl [T]>::copy_from_slice": m_copy_from_slice,
     "std::option::Option::<T>::expect": m_unwrap,
+    "std::result::Result::<T, E>::unwrap": m_unwrap,
+    "std::result::Result::<T, E>::expect": m_unwrap,
     "std::vec::Vec::<T, A>::resize": m_vec_resize,
     "std::vec::Vec::<T, A>::truncate": m_vec_truncate,
     "core::slice::<impl [T]>::copy_within": m_copy_within,
@@ -1854,6 +1943,20 @@ MODELS = {
     "std::cmp::PartialEq::eq": m_enum_cmp("Eq"),
     "std::intrinsics::discriminant_value": m_discr_value,
     "core::intrinsics::discriminant_value": m_discr_value,
+    "core::slice::<impl [T]>::chunks": m_chunks(False),
+    "core::slice::<impl [T]>::chunks_exact": m_chunks(True),
+    "<std::slice::Chunks<'a, T> as std::iter::Iterator>::next": m_chunks_next,
+    "<std::slice::ChunksExact<'a, T> as std::iter::Iterator>::next": m_chunks_next,
+    "core::slice::iter::ChunksExact::<'a, T>::remainder": m_chunks_remainder,
+    "std::slice::ChunksExact::<'a, T>::remainder": m_chunks_remainder,
+    "<&mut I as std::iter::Iterator>::next": m_refmut_iter_next,
+    "core::array::<impl std::ops::Index<I> for [T; N]>::index": m_array_index,
+    "core::array::<impl std::ops::IndexMut<I> for [T; N]>::index_mut": m_array_index,
+    "std::option::Option::<T>::map_or": m_opaque,
+    "std::option::Option::<T>::map_or_else": m_opaque,
+    "std::str::from_utf8": m_opaque,
+    "core::str::converts::from_utf8": m_opaque,
+    "hex::decode": m_opaque,
     "core::panicking::panic": m_panic,
     "core::panicking::panic_fmt": m_panic,
     "core::panicking::assert_failed": m_panic,
@@ -1864,6 +1967,12 @@ PREFIX_MODELS = [
     ("<constants::Class as std::convert::Into", m_into_enum_const),
     ("<constants::Type as std::convert::Into", m_into_enum_const),
     ("<T as std::convert::Into<U>>::into", m_into_enum_const),
+    ("chomp::", m_opaque),
+    ("core::num::", m_opaque),
+    ("core::char::", m_opaque),
+    ("std::net::", m_opaque),
+    ("core::net::", m_opaque),
+    ("<std::net::", m_opaque),
     ("std::fmt::", m_opaque),
     ("core::fmt::", m_opaque),
 ]
